@@ -197,7 +197,7 @@ C06Applies(line, pre, g) == C06Base(line, pre, g) /\ NoFaults(line)
 \* owed whenever that many nodes can be tainted at all (a failed write on one candidate does not excuse tainting fewer)
 NodeWriteFaultsOnly(line, pre) ==
   /\ ~NoFaults(line)
-  /\ \A i \in 1..Len(line.faults) : line.faults[i].op \in {"get", "update"} /\ \E h \in Groups(pre) : line.faults[i].t \in Listed(pre, h)
+  /\ \A i \in 1..Len(line.faults) : line.faults[i].op \in {"get", "update", "conflict"} /\ \E h \in Groups(pre) : line.faults[i].t \in Listed(pre, h)
 C06AppliesF(line, pre, g) == C06Base(line, pre, g) /\ NodeWriteFaultsOnly(line, pre) /\ ~line.crash
 
 C06v(line, pre) ==
@@ -468,6 +468,9 @@ C15f(line, pre) ==
          \cup (IF UntaintedOK(line, g) # {} THEN {"C15:untaint-write"} ELSE {})
          \cup (IF pre.groups[g].lag /\ \E n \in Gets(line, g) : n \in DOMAIN pre.groups[g].api /\ n \in Listed(pre, g)
                     /\ pre.groups[g].api[n].taint.has /\ ~V(pre, g)[n].taint.has THEN {"C15:lagging-view-already-tainted"} ELSE {})
+         \cup (IF \E i \in 1..Len(line.faults) : line.faults[i].op = "conflict" /\ \E j \in 1..Len(line.calls) :
+                       line.calls[j].op = "update" /\ line.calls[j].n = line.faults[i].t /\ line.calls[j].g = g /\ ~line.calls[j].ok
+                 THEN {"C15:write-lost-a-race"} ELSE {})
         : g \in Groups(pre)}
 
 -----------------------------------------------------------------------------
